@@ -55,7 +55,8 @@ CFG = {
                                  "C17_tie_encode", "C17_roundtrip_src", "C17_unsupported_src", "C17_unsupported_error_src",
                                  "C17_roundtrip_checked", "C17_roundPos_rne", "C17_toBits_sound", "C17_rne_unique", "C17_rne_mono", "C17_shortest_sound",
                                  "C17_goG_passes", "C17_goG_shortest", "C17_goG_zero", "C17_goG_layout_fixpoint",
-                                 "C17_shortest_sound_zero", "C17_goG_exists", "C17_numfmt_exists", "C17_roundtrip_exists"]],
+                                 "C17_shortest_sound_zero", "C17_goG_exists", "C17_numfmt_exists", "C17_roundtrip_exists",
+                                 "C17_numfmt_anydigits", "C17_roundtrip_anydigits", "C17_digspec_exists"]],
     "trusted_base": [
         "Lean 4.33.0 kernel; axioms of every theorem printed by #print axioms must be within {propext, Classical.choice, Quot.sound}",
         "T1: lean/GeomV/C17/Gen.lean is regenerated from /repo/encoding/wkt/*.go (all seven anchored files, wkt.go's Error() included) on every run by checks/c17_go2lean.py (a ~270-line "
